@@ -2,7 +2,33 @@
 import os, json, subprocess
 
 
+def run_textcmp(step, results, wdir, root):
+    """byte-for-byte comparison of the serde_json text recorded by different builds"""
+    viol = []
+    info = {"name": step["name"], "pairs": [], "events": 0, "distinct_nontrivial": 0, "samples": [], "inconclusive": []}
+    have = set(r["config"] for (r, s, n, summary, inc, san) in results if summary and not r.get("mode"))
+    for a, b in step["pairs"]:
+        fa, fb = os.path.join(wdir, "json.%s.txt" % a), os.path.join(wdir, "json.%s.txt" % b)
+        if a not in have or b not in have or not os.path.exists(fa) or not os.path.exists(fb):
+            info["inconclusive"].append("json comparison %s~%s skipped: output missing" % (a, b))
+            continue
+        la = dict(l.rstrip("\n").split("\t", 1) for l in open(fa) if "\t" in l)
+        lb = dict(l.rstrip("\n").split("\t", 1) for l in open(fb) if "\t" in l)
+        common = sorted(set(la) & set(lb))
+        diff = [k for k in common if la[k] != lb[k]]
+        info["pairs"].append({"pair": "%s~%s" % (a, b), "values_compared": len(common), "differing": len(diff), "only_in_one": len(set(la) ^ set(lb))})
+        info["events"] += len(common)
+        info["distinct_nontrivial"] += len(common)
+        if common:
+            info["samples"].append({"config": "%s~%s" % (a, b), "op": "json text", "event": "%s -> %s" % (common[0], la[common[0]])})
+        for k in diff[:5]:
+            viol.append({"type": k.split("#")[0], "op": "serde_json text", "kind": "cross_build_text", "tags": ["%s~%s" % (a, b)], "input": k, "got": la[k], "expected": lb[k], "note": "serialised output must be byte-identical in SIMD and scalar-math builds", "config": "%s~%s" % (a, b)})
+    return viol, info
+
+
 def run_post(step, results, wdir, root):
+    if step["name"] == "jsoncmp":
+        return run_textcmp(step, results, wdir, root)
     """step = {"name": "tracecmp", "engine": "e_api", "prop": ..., "cmp_config": "sse2", "pairs": [[a, b, class], ...]}
     Each config's trace was written to <wdir>/trace.<config>.bin by its run."""
     from check_paths import binary_path, cfg_env  # provided by the driver
